@@ -285,6 +285,8 @@ def reference_closure(rep, ogp, where):
                 return (True,)
             if t == atoms['C']:
                 return (vc,)
+            if t == atoms['S']:
+                return (True,)
             return None
         emitted = Eval(leaf, lenient=False).truth(pred)
         key = 'refclosure:impl-without-struct:vertex-arg∧entry-result' if (va and not vc) else f'refclosure:vertex-arg:A={int(va)},C={int(vc)}'
